@@ -1290,6 +1290,8 @@ class Interp:
     def subscript(self, v, idx, node):
         from . import models as M
 
+        if isinstance(idx, LinV) and F.lin_is_const(idx.lin) and isinstance(v, (Const, TupleV)):
+            idx = Const(idx.lin[1])  # (a position that came out of enumerate / range / arithmetic as a number)
         if isinstance(v, Ref):
             o = self.deref(v)
             if isinstance(o, HDict):
